@@ -175,3 +175,45 @@ def handlers_of(func_node):
         if isinstance(s, ast.Try):
             return s
     return None
+
+
+# ---------------------------------------------------------------------------
+# definite assignment of the field's own attribute (R11)
+# ---------------------------------------------------------------------------
+
+def packet_param(fi, kind):
+    """name of the packet parameter of an init / unpack / pack implementation"""
+    args = [a.arg for a in fi.node.args.args]
+    if len(args) >= 2:
+        return args[1]
+    return 'pkt'
+
+
+def stores_own_name(repo, ci, fi, depth=3, max_paths=4096):
+    """for every non-raising path of ``fi`` (helpers inlined): does it store the
+    attribute named ``self.field_name`` on the packet?  returns list of
+    (path, how) with how in {'direct', 'delegated', None}"""
+    w = repo.walker(inline_depth=depth, max_paths=max_paths)
+    pk = packet_param(fi, None)
+    out = []
+    for p in w.paths(fi.node, cls=ci):
+        if p.raises():
+            continue
+        how = None
+        renamed = set()
+        for e in p.all_effects():
+            if e.kind == 'setattr' and canon(e.obj) == pk and canon(e.name) == 'self.field_name' and not e.cond:
+                how = how or 'direct'
+            elif e.kind == 'store_attr' and e.name == 'field_name' and canon(e.value) == 'self.field_name':
+                renamed.add(canon(e.obj))
+            elif e.kind == 'call' and isinstance(e.call.func, ast.Attribute) and e.call.func.attr in ('init', 'unpack', 'unpack_impl') \
+                    and canon(e.call.func.value) in renamed and not e.cond:
+                how = how or 'delegated'
+        # a loop body store does not count as definite (the loop may run zero times)
+        if how == 'direct':
+            direct_top = any(e.kind == 'setattr' and canon(e.obj) == pk and canon(e.name) == 'self.field_name' and not e.cond for e in p.effects)
+            deleg_top = any(e.kind == 'call' and isinstance(e.call.func, ast.Attribute) and e.call.func.attr in ('init', 'unpack') and canon(e.call.func.value) in renamed for e in p.effects)
+            if not direct_top and not deleg_top:
+                how = None
+        out.append((p, how))
+    return out
